@@ -26,7 +26,7 @@ def run(chk):
     report_rejects(chk, r, sig, lambda ev, d: "serde round trip of %s via %s does not give the message back" % (ev.get("variant"), ev.get("via")))
     variants = set(o["variant"] for ln, o in r["lines"])
     if len(variants) < 100:
-        raise ToolError("vacuity: only %d message types" % len(variants))
+        chk.vacuity("vacuity: only %d message types" % len(variants))
     chk.cov["distinct_nontrivial"] = len(set((o["tree_in"], o["via"]) for ln, o in r["lines"]))
     chk.assumptions += ["the derived Serialize/Deserialize impls are observed, not modelled; the spec's own content is the string capacity model",
                         "messages with non-finite floats are outside the property's quantifier and skipped"]
